@@ -64,7 +64,14 @@ def decorate_answer(answer, request):
     answer.header.end_to_end = request.header.end_to_end
 
     if request.has_avp("session_id_avp"):
-        answer.session_id_avp.data = request.session_id_avp.data
+        if answer.has_avp("session_id_avp"):
+            answer.session_id_avp.data = request.session_id_avp.data
+        else:
+            #: The route function left it out: the Session-Id goes right
+            #: behind the header.
+            session_id = SessionIdAVP(request.session_id_avp.data)
+            answer.avps = [session_id] + answer.avps
+
         answer.refresh()
 
     if answer.has_avp("result_code_avp"):
